@@ -181,9 +181,16 @@ def r12_3(ck):
                'the row is built from self.state.emit_data()',
                'the history row is not built from self.state.emit_data()')
     time_ok = False
+    pairs = []
     for d in ast.walk(f.node):
         if isinstance(d, ast.Dict):
-            for k, v in zip(d.keys, d.values):
+            pairs += [(k, v, d) for k, v in zip(d.keys, d.values)]
+        if isinstance(d, ast.Assign) and isinstance(
+                d.targets[0], ast.Subscript):
+            pairs.append((d.targets[0].slice, d.value, d))
+    for k, v, d in pairs:
+        if True:
+            if True:
                 if isinstance(k, ast.Constant) and k.value == 'time':
                     time_ok = A.is_self_attr(v, 'global_time')
                     ck.require(time_ok, 'R12.3', f, d,
